@@ -10,7 +10,8 @@
 (* record (what was really done to the packet: `truth`, `mut`; what the    *)
 (* real code answered: `outcome`, `ck`), and                               *)
 (*   monitor (NtsPacketTrace_mon.cfg): the property section of NtsPacket   *)
-(*     (Sound, Complete, CookieBinding) + observed ExportKeys distinctness *)
+(*     (Sound, Complete, CookieBinding, AuthenticOnly) + observed          *)
+(*     ExportKeys distinctness                                             *)
 (*   strict (NtsPacketTrace_strict.cfg): the outcome is one the            *)
 (*     specification predicts for this class of mutation (TLC's            *)
 (*     enumeration, carried by the case), recomputed here from the         *)
@@ -21,9 +22,11 @@ EXTENDS Integers, Sequences, FiniteSets, TLC, Json
 
 MaxNf == 8
 Roles == {"req", "resp", "cookie", "listener", "export"}
-PlaceholderTypedAsCookie == TRUE
+PlaceholderTypedAsCookie == FALSE
 UidChecked == TRUE
 AdWhole == TRUE
+StopAtAuth == TRUE
+CtLenExact == TRUE
 LenChoices(x) == {}
 TruncMax == 0
 VARIABLES phase, role, nf, wire, mut, truth, outcome, ck, l
@@ -48,7 +51,7 @@ TNext ==
      /\ truth' = [key |-> R.key, dir |-> R.dir, uid |-> R.uid, touched |-> SetOf(R.touched),
                   ckey |-> R.t_ckey, csc |-> R.t_csc]
      /\ outcome' = R.out
-     /\ ck' = [opened |-> R.ck_opened, key |-> R.ck_key, sc |-> R.ck_sc]
+     /\ ck' = [opened |-> R.ck_opened, key |-> R.ck_key, sc |-> R.ck_sc, cok |-> R.cok]
 TSpec == TInit /\ [][TNext]_<<vars, l>>
 
 R == Trace[l]
@@ -60,7 +63,8 @@ RDirectionsDistinct == l > 0 => R.dd
 \* -------------------------------------------------------------- strict
 SPredicted == l > 0 => R.out \in SetOf(R.pred)
 SRecomputed ==
-  (l > 0 /\ R.kind \in {"none", "swapkey", "swapdir", "foreignkey", "replay", "replaceuid", "swapcookie"}) =>
+  (l > 0 /\ R.kind \in {"none", "swapkey", "swapdir", "foreignkey", "replay", "replaceuid", "swapcookie",
+                         "appenduid", "appendcookie", "replay+appenduid", "replay+appendcookie"}) =>
      LET p == Predict(IF R.role = "listener" THEN "req" ELSE R.role, R.nf, R.kind)
      IN /\ R.out = p.out
         \* (the live listener does not show the cookie it opened)
